@@ -385,6 +385,24 @@ def run(ctx):
            and indents == {5, 21} and key_widths == {16},
            "feature key / qualifier columns differ between reader and writer", sa_.lineno, nontrivial=False)
 
+    # repeated qualifiers: the reader joins the values of one key with a separator (_set_qual), the writer must split the
+    # stored value at exactly that separator (str.split(sep): every piece, empty ones too - not splitlines(), which also
+    # breaks at \r, \x0b, \x1c.. and drops a trailing empty value)
+    sq = a.func("_set_qual")
+    joins = [st for st in ast.walk(sq) if isinstance(st, ast.AugAssign) and isinstance(st.op, ast.Add) and isinstance(st.value, ast.BinOp)
+             and isinstance(st.value.op, ast.Add) and isinstance(st.value.left, ast.Constant) and isinstance(st.value.left.value, str)]
+    ctx.need(len(joins) == 1, "_set_qual appends a repeated value after a separator")
+    sep = joins[0].value.left.value
+    loops = [lp for lp in ast.walk(sa_) if isinstance(lp, ast.For) and any(isinstance(x, ast.JoinedStr) and '="' in ast.unparse(x) for b in lp.body for x in ast.walk(b))
+             and not any(isinstance(x, ast.For) for b in lp.body for x in ast.walk(b))]
+    ctx.need(len(loops) == 1, "the loop of set_annotation that writes one line per qualifier value")
+    it = loops[0].iter
+    ok_split = isinstance(it, ast.Call) and isinstance(it.func, ast.Attribute) and it.func.attr == "split" and len(it.args) == 1 and not it.keywords \
+        and isinstance(it.args[0], ast.Constant) and it.args[0].value == sep
+    ctx.ob("R3.qualifier-repeats", GBA, "set_annotation", f"for .. in {ast.unparse(it)[:50]}  vs reader separator {sep!r}", ok_split,
+           f"the values of a repeated qualifier are stored joined by {sep!r} (_set_qual): the writer must write one line per piece of "
+           f"str.split({sep!r}) so that empty values and other line-boundary characters survive", loops[0].lineno)
+
     # ---------------- R4 GFF ------------------------------------------------
     g = ctx.src(GFF)
     gi = g.func("GFFFile.__getitem__")
@@ -632,6 +650,12 @@ def run(ctx):
                 flat(st.value)
                 if len(parts) == 3 and isinstance(parts[1], ast.Name):
                     spliced = parts[1].id
+            # the same splice written as a slice assignment: self.lines[start:stop] = new_lines
+            if isinstance(st, ast.Assign) and len(st.targets) == 1 and isinstance(st.targets[0], ast.Subscript) \
+                    and dotted(st.targets[0].value) == "self.lines" and isinstance(st.targets[0].slice, ast.Slice) and isinstance(st.value, ast.Name):
+                sl = st.targets[0].slice
+                if bounds and isinstance(sl.lower, ast.Name) and isinstance(sl.upper, ast.Name) and (sl.lower.id, sl.upper.id) == bounds and sl.step is None:
+                    spliced = st.value.id
             if isinstance(st, ast.Assign) and isinstance(st.targets[0], ast.Name) and st.targets[0].id == "shift":
                 shift = linear(st.value, {})
             if isinstance(st, ast.For) and isinstance(st.iter, ast.Call) and call_name(st.iter) == "range" \
@@ -676,6 +700,8 @@ def run(ctx):
            "inserting a field: the fields from index on must move down by len(new lines)", f.lineno)
 
 MUTANTS = [
+    Mutant("qualifier-splitlines", GBA, '                for val in values.split("\\n"):\n', "                for val in values.splitlines():\n", "R3.qualifier-repeats"),
+    Mutant("genbank-shift-parentheses", GB, "        shift = len(inserted_lines) - (old_stop - start)\n", "        shift = len(inserted_lines) - old_stop - start\n", "R5.genbank-shift"),
     Mutant("range-loses-beyond-right", GBA, '            loc_string = loc_first_str + ".." + loc_last_str', '            loc_string = loc_first_str + ".." + str(loc.last)', "R3.range-flags"),
     Mutant("fasta-header-written-raw", FASTA, '        header = header.replace("\\n", "").strip()\n        # Create lines for new header and sequence (with line breaks)\n        new_lines = [">" + header] + wrap_string(seq_str, width=self._chars_per_line)', '        # Create lines for new header and sequence (with line breaks)\n        new_lines = [">" + header] + wrap_string(seq_str, width=self._chars_per_line)\n        header = header.replace("\\n", "").strip()', "R2.key-normalised-before-use"),
     Mutant("feature-key-field-15", GBA, "line += feature.key.ljust(_QUAL_START - _KEY_START)", "line += feature.key.ljust(15)", "R3.feature-columns"),
